@@ -286,6 +286,10 @@ def no_hang():
             "literal with tag-like text and an odd quote behind": '10 A$=": STRING<<>> : STRING<<>> ' + "X" * 40 + '"+"' + "Y" * 40 + '\n20 REM "\n',
             "long line of blanks and colons": "10 A=1" + " : " * 300 + "\n",
             "procedure-like comment": "10 REM PROCEDURE " + "A " * 60 + '"\n',
+            "40 nested convertible functions": "10 A=" + "INT(" * 40 + "B" + ")" * 40 + "\n",
+            "nested VAL(STR$(INT(..)))": "10 PRINT " + "VAL(STR$(INT(" * 13 + "B" + ")))" * 13 + "\n",
+            "nested INSTR / STRING$": "10 A=" + "INSTR(1,STRING$(" * 12 + "2,\"x\"" + "),\"x\")" * 12 + "\n",
+            "40 nested parentheses and functions": "10 A=" + "ABS((" * 40 + "B" + "))" * 40 + "\n",
         }
         res = []
         for name, src in progs.items():
@@ -344,5 +348,36 @@ def config_files():
     return guarded("config", run)
 
 
+def cli_file_names():
+    """through the command line: every input file name over the characters the tool's own procedure-name pattern admits (with and
+    without an extension, with several dots) is converted or refused with a documented error"""
+    def run():
+        import tempfile
+        from coco import decb_to_b09
+        res = []
+        d = tempfile.mkdtemp(dir=os.environ.get("XDG_RUNTIME_DIR") or "/dev/shm")
+        try:
+            for name in ["GAME", "GAME.bas", "my-prog_2", "3D", "a.b.bas", "x.", "a-b.BAS", "_p", "2048.bas", "A1", "name.with.many.dots"]:
+                src = os.path.join(d, name)
+                open(src, "w").write("10 A=1\n")
+                for flags in ([], ["-D"], ["-l", "-z"]):
+                    try:
+                        decb_to_b09.start(flags + [src, os.path.join(d, "out.b09")])
+                        got = "converted"
+                    except SystemExit as e:
+                        got = "exit %s" % e.code
+                    except Exception as e:  # noqa
+                        kind, what = classify(e, procname=name)
+                        got = "documented refusal" if kind == "documented" else (what or kind)
+                    res.append(ob("cli-name/%r %s" % (name, " ".join(flags)), got in ("converted", "documented refusal") or got.startswith("exit"), "converted or documented refusal", got))
+                os.unlink(src)
+        finally:
+            for f in os.listdir(d):
+                os.unlink(os.path.join(d, f))
+            os.rmdir(d)
+        return res
+    return guarded("cli-name", run)
+
+
 def obligations():
-    return arity() + tables() + operators() + literals() + data_and_procnames() + loop_balance() + no_hang() + config_files() + mutations()
+    return arity() + tables() + operators() + literals() + data_and_procnames() + loop_balance() + no_hang() + config_files() + cli_file_names() + mutations()
